@@ -184,6 +184,10 @@ class HGen:
                         continue
                     ops += [("start", k, "ea-%d" % k, action, GD.snake(reqs[0][1]), False, False, True),
                             ("inbound", json.dumps([3, "ea-%d" % k, resps[0][1]])), ("tick", 1)]
+                    # the instance of falsy values (0, "", false, [] where the schema allows them) where it differs
+                    if len(reqs) > 2 and reqs[2][0] == "valid-falsy" and reqs[2][1] != reqs[0][1]:
+                        ops += [("start", 1000 + k, "ef-%d" % k, action, GD.snake(reqs[2][1]), False, False, True),
+                                ("inbound", json.dumps([3, "ef-%d" % k, resps[0][1]])), ("tick", 1)]
                 out.append((version, [], ops, 30))
         return out
 
@@ -242,6 +246,23 @@ class HGen:
                        ("inbound", json.dumps([3, "gen-0", {"currentTime": "right2"}])),
                        ("tick", 1)]
                 out.append((version, [], ops, 30))
+        # several foreign replies arriving at DIFFERENT times during one wait neither shorten nor extend the deadline; ids that
+        # are long or not strings are matched like any other
+        for version in ("1.6", "2.0.1"):
+            long_id = "CP-0042-3f2b8c1e-7a55-4e0d-9b1a-5d6c7e8f9a0b"
+            ops = [("start", 0, "D", "Heartbeat", {}, False, False, True), ("tick", 0.5),
+                   ("inbound", json.dumps([3, "x1", {}])), ("tick", 0.5), ("inbound", json.dumps([4, "x2", "GenericError", "", {}])),
+                   ("tick", 0.25), ("inbound", json.dumps([3, "x3", {}])), ("tick", 0.5),
+                   ("inbound", json.dumps([3, "D", {"currentTime": "at 1.75 of 2"}])), ("tick", 1),
+                   ("start", 1, long_id, "Heartbeat", {}, False, False, True), ("tick", 0.25),
+                   ("inbound", json.dumps([3, long_id, {"currentTime": "long id"}])), ("tick", 1),
+                   ("start", 2, 4711, "Heartbeat", {}, False, False, True), ("tick", 0.25),
+                   ("inbound", json.dumps([3, 4711, {"currentTime": "int id"}])), ("tick", 1),
+                   ("start", 3, "E", "Heartbeat", {}, False, False, True), ("tick", 0.5),
+                   ("inbound", json.dumps([3, "y1", {}])), ("tick", 0.75), ("inbound", json.dumps([3, "y2", {}])), ("tick", 0.5),
+                   ("tick", 0.25), ("tick", 0.25),
+                   ("inbound", json.dumps([3, "E", {"currentTime": "too late: 2.25"}])), ("tick", 1)]
+            out.append((version, [], ops, 2))
         # a fractional response timeout is honoured to the fraction
         for version, timeout in (("1.6", 0.75), ("2.0.1", 2.5), ("1.6", 1.75)):
             ops = [("start", 0, "F", "Heartbeat", {}, False, False, True), ("tick", timeout - 0.25),
